@@ -61,6 +61,40 @@ def _is_range_of_param(it, name):
     return it[0] == "call" and it[1] == ("builtin", "range") and len(it[2]) == 1 and it[2][0][0] == "param" and it[2][0][1] == name
 
 
+def _loop_runs_param_times(p, loop, name):
+    """the loop of the path runs once per unit of the parameter *name*: `for _ in range(name)`, or a countdown
+    `k = name; while k > 0: ...; k -= 1` (the k-th evaluation of the loop test is  name - k > 0)"""
+    if loop.iter is not None:
+        return _is_range_of_param(loop.iter, name)
+    tests = []
+    for k, e in enumerate(p.trace):
+        if e.k in ("loopiter", "loopexit") and e.loop == loop.loop and k > 0 and p.trace[k - 1].k == "decision":
+            tests.append(p.trace[k - 1])
+    if not tests:
+        return False
+    for k, d in enumerate(tests):
+        nf = normalise_cmp(d.test, True)
+        if nf is None:
+            return False
+        op, co, c = nf
+        co = dict(co)
+        if len(co) != 1:
+            return False
+        (atom, coef), = co.items()
+        base = atom
+        if base[0] == "call" and base[1] in (("glob", "operator.index"), ("builtin", "int")) and len(base[2]) == 1:
+            base = base[2][0]
+        if not (base[0] == "param" and base[1] == name) or coef not in (1, -1):
+            return False
+        s = coef
+        # name - k > 0   /   name - k >= 1
+        opn = op if s == 1 else {"Gt": "Lt", "Lt": "Gt", "GtE": "LtE", "LtE": "GtE"}.get(op, op)
+        cn = c * s
+        if not ((opn == "Gt" and cn == -k) or (opn == "GtE" and cn == -(k + 1)) or (opn == "NotEq" and cn == -k)):
+            return False
+    return True
+
+
 def _items(p):
     return [m for m in mux_emissions(p, roles=("down",)) if m.event is not None and m.event.kind == "Next"]
 
@@ -183,7 +217,7 @@ def rule_fw2(ctx: Ctx) -> RuleResult:
                     pay = m.event.payload
                     ok = ok and ((pay[0] == "param" and pay[1] == "value") if val == "Obj" else pay == rd[0].result)
                 loops = [e for e in p.trace if e.k == "loopiter"]
-                ok = ok and bool(loops) and _is_range_of_param(loops[0].iter, "size")
+                ok = ok and bool(loops) and _loop_runs_param_times(p, loops[0], "size")
                 r.ob(ok, fail(spec, kind, cfg, p, "pad_end: 'size' copies of the padding value (explicit value, else the last item) must be emitted "
                                                   "before the completion; this path: %s" % summary(p), "pad"))
     # ---- pad_start / start_with -------------------------------------------
@@ -213,7 +247,7 @@ def rule_fw2(ctx: Ctx) -> RuleResult:
                 if what == "pad_start" and pads:
                     # one padding item per element of range(size): the bounded loop enumeration cannot count, the loop header can
                     loops = [e for e in p.trace if e.k == "loopiter"]
-                    ok = ok and bool(loops) and _is_range_of_param(loops[0].iter, "size")
+                    ok = ok and bool(loops) and _loop_runs_param_times(p, loops[0], "size")
             else:
                 ok = last_ok and len(it) == 1 and not wr
             r.ob(ok, fail(spec, kind, cfg, p, "%s: padding must be emitted only before the first item of a key, then the item exactly once, and the key "
@@ -689,6 +723,20 @@ def rule_so1(ctx: Ctx) -> RuleResult:
         r.ob(kws.get("extend") == "True", lambda: Finding("SO-1", "%s::sort{extend}" % rel, m.where(dq), "to_deque must be called with extend=True so that the sorted list is flattened in order"))
         cb = stages[1].args[0] if stages[1].args else None
         cbfn = _callable_def(ctx, m, cb, fn) if cb is not None else None
+        if cbfn is None and cb is not None:
+            # functools.partial(sorted, key=key, reverse=reverse): sorted itself, with the two parameters bound
+            tt = ctx.ex.eval_in_scope(m, fn, cb)
+            if tt is not None and tt[0] == "partial" and tt[1] == ("builtin", "sorted"):
+                kws = {a[1]: a[2] for a in tt[2] if a[0] == "kw"}
+                pos = [a for a in tt[2] if a[0] != "kw"]
+                good = not pos and set(kws) == {"key", "reverse"} and kws["key"][0] == "param" and kws["key"][1] == "key" \
+                    and kws["reverse"][0] == "param" and kws["reverse"][1] == "reverse"
+                r.paths += 1
+                r.groups.add(("sort", "partial"))
+                r.ob(good, lambda: Finding("SO-1", "%s::sort{sorted}" % rel, m.where(cb),
+                                           "the items must be ordered by sorted(items, key=key, reverse=reverse); the mapped function is %s" % show(tt)))
+                r.require_instances(1)
+                return r
         if cbfn is None:
             raise AnalysisError("sort: the mapped sorting function is not a local function or lambda")
         params = m.scopes[cbfn].params
@@ -847,52 +895,74 @@ def rule_so2(ctx: Ctx) -> RuleResult:
     return r
 
 
+def _opt1_site(ctx, r, spec, label, kinds, value_role):
+    """re-run the handler with each optional value parameter bound to an explicit falsy value; every path must do what it does for an
+    ordinary explicit value.  value_role(name, data, called) selects the optional parameters that are values (not callables)."""
+    from ..model import valuations
+    space = ctx.space(spec)
+    data, called = set(), set()
+    for kind in kinds:
+        for cfg in valuations(space):
+            for p in ctx.paths(spec, kind, cfg):
+                for e in p.trace:
+                    if e.k == "ucall":
+                        called.add(e.name)
+                    if e.k == "emit" and e.arg is not None:
+                        data |= {x[1] for x in subterms(e.arg) if x[0] == "param"}
+    params = sorted(k for k, v in space.items() if "None" in v and "Obj" in v and k not in called and value_role(k, data))
+    for prm in params:
+        for kind in kinds:
+            for cfg in valuations(space):
+                if cfg.get(prm) != "Obj":
+                    continue
+                falsy = dict(cfg)
+                falsy[prm] = "Falsy"
+                want = sorted("\n".join(p.render()) for p in ctx.paths(spec, kind, cfg))
+                got_paths = ctx.paths(spec, kind, falsy)
+                got = sorted("\n".join(p.render()) for p in got_paths)
+                r.paths += len(got_paths)
+                r.groups.add((label, prm, kind, cfg_str(cfg)))
+                ok = want == got
+
+                def f(kind=kind, cfg=falsy, got_paths=got_paths, want=want, prm=prm):
+                    bad = [p for p in got_paths if "\n".join(p.render()) not in want] or got_paths
+                    return mk_finding("OPT-1", spec, kind, cfg, bad[0],
+                                      "%s: with %s bound to an explicit falsy value (0, '', False, timedelta(0)) the handler does not do what it does for another "
+                                      "explicit value: the parameter is tested for truth (or equality) where only 'is None' tells 'not given'; "
+                                      "falsy: %s / explicit: %s" % (label, prm, summary(bad[0]), want[0].splitlines()[-3:] if want else "-"),
+                                      extra="falsy-" + prm)
+                r.ob(ok, f)
+    return params
+
+
 def rule_opt1(ctx: Ctx) -> RuleResult:
     """An optional padding value is told from 'not given' by identity with None only: an explicit falsy value (0, '', False, 0.0)
     pads like any other explicit value.  The handlers are re-run with the parameter bound to an abstract value that is not None,
     not True / False and whose truth value is False; every path must do what it does for an ordinary explicit value."""
     r = RuleResult("OPT-1", "pad_start / pad_end: an explicit falsy padding value (0, '', False) pads exactly like any other explicit value")
-    from ..model import valuations
     for rel, suffix in (("rxsci/data/pad.py", "pad_start_mux._pad_start_mux.on_subscribe"),
                         ("rxsci/data/pad.py", "pad_end_mux._pad_end_mux.on_subscribe")):
         site, spec = _spec(ctx, rel, suffix)
         r.instances += 1
-        space = ctx.space(spec)
         # the value parameters: optional ones that reach an emitted payload and are never called
-        data, called = set(), set()
-        for kind in ("Next", "Completed"):
-            for cfg in valuations(space):
-                for p in ctx.paths(spec, kind, cfg):
-                    for e in p.trace:
-                        if e.k == "ucall":
-                            called.add(e.name)
-                        if e.k == "emit" and e.arg is not None:
-                            data |= {x[1] for x in subterms(e.arg) if x[0] == "param"}
-        params = sorted(k for k, v in space.items() if "None" in v and "Obj" in v and k in data and k not in called)
+        params = _opt1_site(ctx, r, spec, suffix.split(".")[0], ("Next", "Completed"), lambda k, data: k in data)
         if not params:
             raise AnalysisError("OPT-1: %s: no optional value parameter reaches an emission (the padding value was found there by reading)" % spec.qualname)
-        for prm in params:
-            for kind in ("Next", "Completed"):
-                for cfg in valuations(space):
-                    if cfg.get(prm) != "Obj":
-                        continue
-                    falsy = dict(cfg)
-                    falsy[prm] = "Falsy"
-                    want = sorted("\n".join(p.render()) for p in ctx.paths(spec, kind, cfg))
-                    got_paths = ctx.paths(spec, kind, falsy)
-                    got = sorted("\n".join(p.render()) for p in got_paths)
-                    r.paths += len(got_paths)
-                    r.groups.add((suffix.split(".")[0], prm, kind))
-                    ok = want == got
-                    def f(kind=kind, cfg=falsy, got_paths=got_paths, want=want, prm=prm):
-                        bad = [p for p in got_paths if "\n".join(p.render()) not in want] or got_paths
-                        return mk_finding("OPT-1", spec, kind, cfg, bad[0],
-                                          "%s: with %s bound to an explicit falsy value (0, '', False) the handler does not do what it does for another "
-                                          "explicit value: the parameter is tested for truth (or equality) where only 'is None' tells 'not given'; "
-                                          "falsy: %s / explicit: %s" % (suffix.split(".")[0], prm, summary(bad[0]), want[0].splitlines()[-3:] if want else "-"),
-                                          extra="falsy-" + prm)
-                    r.ob(ok, f)
     r.require_instances(2)
+    return r
+
+
+def rule_opt1_time_split(ctx: Ctx) -> RuleResult:
+    """time_split: a timeout of zero (timedelta(0), 0) is a timeout, not 'no timeout': only None disables a timeout."""
+    r = RuleResult("OPT-1", "time_split: an explicit zero timeout (timedelta(0), 0) is handled like any other explicit timeout; only None means 'no timeout'")
+    site = ctx.site("rxsci/data/time_split.py", "time_split_mux._time_split.on_subscribe", kind="mux")
+    spec = site.handler_specs("on_next")[0]
+    r.instances += 1
+    # the optional parameters that are not called (the two timeouts; the closing mapper is a function)
+    params = _opt1_site(ctx, r, spec, "time_split", ("Next",), lambda k, data: True)
+    if len(params) < 2:
+        raise AnalysisError("OPT-1: time_split: expected the two optional timeouts among the configuration parameters, found %s" % params)
+    r.require_instances(1)
     return r
 
 
